@@ -45,6 +45,9 @@ pub struct Profile {
     pub bulk: bool,
     /// invalid calls may use indexes near usize::MAX
     pub extreme_indexes: bool,
+    /// element-level calls on text objects: put / insert / delete of scalars at a text index
+    /// (concurrent puts make conflicted text elements)
+    pub text_elem_ops: bool,
 }
 
 impl Profile {
@@ -64,7 +67,11 @@ impl Profile {
             keys: 3,
             bulk: true,
             extreme_indexes: false,
+            text_elem_ops: false,
         }
+    }
+    pub fn with_text_elem_ops() -> Profile {
+        Profile { text_elem_ops: true, ..Profile::contention() }
     }
     pub fn no_blocks() -> Profile {
         Profile { blocks: false, ..Profile::contention() }
@@ -419,8 +426,34 @@ pub fn random_edit<D: Transactable>(d: &mut D, rng: &mut Rng, gs: &mut GenState)
                 if p.blocks { 3 } else { 0 },
                 if p.blocks && len > 0 { 2 } else { 0 },
                 if p.bulk { 2 } else { 0 },
+                if p.text_elem_ops && len > 0 { 10 } else { 0 },
+                if p.text_elem_ops { 3 } else { 0 },
+                if p.text_elem_ops && len > 0 { 4 } else { 0 },
             ];
             match rng.weighted(&w) {
+                8 => {
+                    // overwrite one text element (concurrent overwrites conflict)
+                    kind = "put_text_elem";
+                    let b = GenState::boundaries(d, &obj);
+                    let i = b[rng.below(b.len().saturating_sub(1).max(1))].min(len.saturating_sub(1));
+                    let s = if rng.chance(70) { rng.pick(&GRAPHEMES).to_string() } else { gs.rand_text(rng, 2) };
+                    desc = format!("put({}, {i}, {s:?}) [text element]", oid(&obj));
+                    r = d.put(&obj, i, s.as_str());
+                }
+                9 => {
+                    kind = "insert_text_elem";
+                    let i = gs.text_index(d, &obj, rng);
+                    let s = rng.pick(&GRAPHEMES).to_string();
+                    desc = format!("insert({}, {i}, {s:?}) [text element]", oid(&obj));
+                    r = d.insert(&obj, i, s.as_str());
+                }
+                10 => {
+                    kind = "delete_text_elem";
+                    let b = GenState::boundaries(d, &obj);
+                    let i = b[rng.below(b.len().saturating_sub(1).max(1))].min(len.saturating_sub(1));
+                    desc = format!("delete({}, {i}) [text element]", oid(&obj));
+                    r = d.delete(&obj, i);
+                }
                 0 => {
                     kind = "splice_text_ins";
                     let i = gs.text_index(d, &obj, rng);
